@@ -1653,7 +1653,7 @@ tenbytefloat2int (uint8_t *bytes)
 	if (bytes [0] > 0x40)	/* Way too big. */
 		return 0x4000000 ;
 
-	if (bytes [0] == 0x40 && bytes [1] > 0x1C) /* Too big. */
+	if (bytes [0] == 0x40 && bytes [1] > 0x1D) /* Too big for an int. */
 		return 800000000 ;
 
 	/* Ok, can handle it. */
@@ -1667,7 +1667,7 @@ tenbytefloat2int (uint8_t *bytes)
 
 static void
 uint2tenbytefloat (uint32_t num, uint8_t *bytes)
-{	uint32_t mask = 0x40000000 ;
+{	uint32_t mask = 0x80000000 ;
 	int	count ;
 
 	if (num <= 1)
@@ -1679,19 +1679,15 @@ uint2tenbytefloat (uint32_t num, uint8_t *bytes)
 
 	bytes [0] = 0x40 ;
 
-	if (num >= mask)
-	{	bytes [1] = 0x1D ;
-		return ;
-		} ;
-
+	/* Normalise : shift the most significant bit of num up to bit 31. */
 	for (count = 0 ; count < 32 ; count ++)
 	{	if (num & mask)
 			break ;
 		mask >>= 1 ;
 		} ;
 
-	num = count < 31 ? num << (count + 1) : 0 ;
-	bytes [1] = 29 - count ;
+	num <<= count ;
+	bytes [1] = 30 - count ;
 	bytes [2] = (num >> 24) & 0xFF ;
 	bytes [3] = (num >> 16) & 0xFF ;
 	bytes [4] = (num >> 8) & 0xFF ;
